@@ -54,7 +54,7 @@ func init() {
 		Assumptions: []string{"createdAt/updatedAt timestamps are not compared"},
 		Plan: func(tier core.Tier, seed int64) int {
 			if tier == core.Thorough {
-				return 200000 + c16CascadeCases*4 + c16ChildCases
+				return 24000 + c16CascadeCases*4 + c16ChildCases
 			}
 			return 480 + c16CascadeCases + c16ChildCases
 		},
@@ -88,7 +88,7 @@ func init() {
 func runC16(c *core.Ctx, idx int) {
 	nHist := 480
 	if c.Tier == core.Thorough {
-		nHist = 200000
+		nHist = 24000 // (200000 before every widget carried links, a nested part and a child-store index: about ten minutes now)
 	}
 	nCascade := c16CascadeCases
 	if c.Tier == core.Thorough {
